@@ -1,10 +1,300 @@
 import BFL.Driver.Proto
-/- Driver entries of this group (stub: no operation handled yet). -/
+import BFL.Core.GaussJordan
+import BFL.Core.Transc
+import BFL.Model.Models
+/-
+Driver entries for the shipped models and initialisers (C16).  Exact over `Rat`; the two places
+where `exp`/`log` occur (transition density, grid log-weights) also run over `Float`.
+
+  wna_fq dim T q                                   -> ok n F Q  lin circ noise   (state/input description)
+  wna_shape dim num                                -> ok rows cols draws | undefined
+  samp n k S c_1..c_k nd d_1..d_nd                 -> ok (rows cols Y)*k pos      (k successive getNoiseSample)
+  wna_motion dim T q skip exo exoskip S [G g] k (N X out0)*k nd draws -> ok M_1 .. M_k pos   (k calls on one object)
+  wna_trans dim T q k (N prev cur)*k               -> ok det (quad_i.. dens_i..(Float))*k
+  lti_state fr fc qr qc | lti_meas hr hc rr rc     -> accept | reject k
+  linmodel n m idx.. rr rc                         -> accept H | reject k
+  sim <traj> nops ops..                            -> ok out..
+  sensor <traj> m idx.. SR nd draws nops ops..     -> ok out..
+  sensor_descr lin circ noise m idx.. rr           -> ok lin circ noise mlin mcirc
+  grid xinf xsup yinf ysup nx ny R N state weight  -> ok flag state weight(Float)
+ where <traj> = aff n L A b x0 | wna dim T q L x0 S nd draws
+-/
 namespace BFL.DriverModels
-open BFL BFL.Proto
+open BFL BFL.Proto BFL.Models
+
+instance : NatCast Float := ⟨Float.ofNat⟩
+
+def dimOf (k : Nat) : Option Dim :=
+  match k with
+  | 1 => some .oneD
+  | 2 => some .twoD
+  | 3 => some .threeD
+  | _ => none
+
+def dim : R Dim := do
+  match dimOf (← nat) with
+  | some d => pure d
+  | none => failure
+
+/-- nearest-double rendering of a rational whose numerator/denominator may be very long -/
+def ratToFloat (q : Rat) : Float :=
+  let n := q.num.natAbs
+  let d := q.den
+  let sn := if n.log2 > 200 then n.log2 - 200 else 0
+  let sd := if d.log2 > 200 then d.log2 - 200 else 0
+  let f := (Float.ofNat (n >>> sn) / Float.ofNat (d >>> sd)).scaleB ((sn : Int) - (sd : Int))
+  if q.num < 0 then -f else f
+
+def matF {r c : Nat} (A : Mat Rat r c) : Mat Float r c := Mat.eval (Mat.of fun i j => ratToFloat (A i j))
+
+/-- stream of draws backed by an array (positions past the end read 0 and are reported) -/
+def streamOf (ds : Array Rat) : Nat → Rat := fun k => ds[k]?.getD 0
+
+def wna_fq : R String := do
+  let d ← dim; let T ← rat; let q ← rat
+  done
+  let F := Mat.eval (wnaF d T)
+  let Q := Mat.eval (wnaQ d T q)
+  let sd := wnaStateDescr d
+  let idd := additiveInputDescr sd (d.n * 2)
+  pure (join (["ok", toString (d.n * 2)] ++ outMatCM ratStr F ++ outMatCM ratStr Q ++
+    [toString sd.lin, toString sd.circ, toString idd.noise]))
+
+def wna_shape : R String := do
+  let d ← dim; let num ← nat
+  done
+  match wnaSampleShape d num with
+  | some (r, c) => pure s!"ok {r} {c} {wnaDrawCount d num}"
+  | none => pure "undefined"
+
+def samp : R String := do
+  let n ← nat; let k ← nat
+  let S ← matCM rat n n
+  let counts ← listOf k nat
+  let nd ← nat
+  let ds ← listOf nd rat
+  done
+  let stream := streamOf ds.toArray
+  let mut rng : Rng Rat := ⟨stream, 0⟩
+  let mut out : List String := ["ok"]
+  for c in counts do
+    let (Y, r') := noiseSample (n := n) S rng c
+    out := out ++ [toString n, toString c] ++ outMatCM ratStr Y
+    rng := r'
+  pure (join (out ++ [toString rng.pos]))
+
+def wna_motion : R String := do
+  let d ← dim; let T ← rat; let q ← rat
+  let skip ← bool; let exo ← bool; let exoskip ← bool
+  let n := d.n * 2
+  let S ← matCM rat n n
+  let exoG ← if exo then do
+      let G ← matCM rat n n
+      let g ← vec rat n
+      pure (some (G, g))
+    else pure none
+  let k ← nat
+  let mut batches : Array (Σ N : Nat, Mat Rat n N × Mat Rat n N) := #[]
+  for _ in [0:k] do
+    let N ← nat
+    let X ← matCM rat n N
+    let out0 ← matCM rat n N
+    batches := batches.push ⟨N, X, out0⟩
+  let nd ← nat
+  let ds ← listOf nd rat
+  done
+  let _ := q
+  let F := Mat.eval (wnaF d T)
+  -- successive calls on one object: the generator state threads through
+  let mut rng : Rng Rat := ⟨streamOf ds.toArray, 0⟩
+  let mut out : List String := ["ok"]
+  for ⟨N, X, out0⟩ in batches do
+    let exoM : Option (Exo Rat n N) := exoG.map fun (G, g) =>
+      { skipping := exoskip, f := fun (C : Mat Rat n N) => Mat.of fun i j => (G.mul C) i j + g i }
+    let (M, r') := addMotion F S skip exoM X out0 rng
+    out := out ++ outMatCM ratStr (Mat.eval M)
+    rng := r'
+  pure (join (out ++ [toString rng.pos]))
+
+def wna_trans : R String := do
+  let d ← dim; let T ← rat; let q ← rat; let k ← nat
+  let n := d.n * 2
+  let mut batches : Array (Σ N : Nat, Mat Rat n N × Mat Rat n N) := #[]
+  for _ in [0:k] do
+    let N ← nat
+    let prev ← matCM rat n N
+    let cur ← matCM rat n N
+    batches := batches.push ⟨N, prev, cur⟩
+  done
+  let F := Mat.eval (wnaF d T)
+  let Q := Mat.eval (wnaQ d T q)
+  match gaussJordan n Q with
+  | none => pure "singular"
+  | some (Qi, detQ) =>
+    let Qi := Mat.eval Qi
+    if !(certInv n Q Qi) then pure "inv-cert-fail" else
+    let QiF := matF Qi
+    let detF := ratToFloat detQ
+    let mut out : List String := ["ok", ratStr detQ]
+    for ⟨N, prev, cur⟩ in batches do
+      -- exact quadratic forms of the residuals
+      let D := Mat.eval (cur.sub (F.mul prev))
+      let quads := (List.finRange N).map fun i => quadForm Qi (D.col i)
+      -- the model's density, executed over Float with the certified inverse / determinant
+      let dens := wnaTransition (α := Float) (fun _ => QiF) (fun _ => detF) (matF F) (matF Q) (matF prev) (matF cur)
+      out := out ++ quads.map ratStr ++ outVec floatStr dens
+    pure (join out)
+
+def lti_state : R String := do
+  let fr ← nat; let fc ← nat; let qr ← nat; let qc ← nat
+  done
+  match ltiStateCheck fr fc qr qc with
+  | none => pure (if ltiStateCtor fr fc qr qc then "accept" else "inconsistent")
+  | some k => pure (if ltiStateCtor fr fc qr qc then "inconsistent" else s!"reject {k}")
+
+def lti_meas : R String := do
+  let hr ← nat; let hc ← nat; let rr ← nat; let rc ← nat
+  done
+  match ltiMeasCheck hr hc rr rc with
+  | none => pure (if ltiMeasCtor hr hc rr rc then "accept" else "inconsistent")
+  | some k => pure (if ltiMeasCtor hr hc rr rc then "inconsistent" else s!"reject {k}")
+
+def linmodel : R String := do
+  let n ← nat; let m ← nat
+  let idx ← listOf m nat
+  let rr ← nat; let rc ← nat
+  done
+  match linearModelCheck n idx rr rc with
+  | some k => pure s!"reject {k}"
+  | none =>
+    let H : Mat Rat idx.length n := linearModelH n idx
+    pure (join (["accept", toString idx.length, toString n] ++ outMatCM ratStr H))
+
+/-- the trajectory source: a harness-defined affine motion or the shipped WNA model -/
+def readTraj : R (Σ n : Nat, Sim (Vec Rat n)) := do
+  let kind ← tok
+  match kind with
+  | "aff" =>
+    let n ← nat; let L ← nat
+    let A ← matCM rat n n
+    let b ← vec rat n
+    let x0 ← vec rat n
+    let step : Nat → Vec Rat n → Vec Rat n := fun _ x => Vec.eval ((A.mulVec x).add b)
+    pure ⟨n, simCtor step x0 L⟩
+  | "wna" =>
+    let d ← dim; let T ← rat; let _q ← rat; let L ← nat
+    let n := d.n * 2
+    let x0 ← vec rat n
+    let S ← matCM rat n n
+    let nd ← nat
+    let ds ← listOf nd rat
+    let stream := streamOf ds.toArray
+    let F := Mat.eval (wnaF d T)
+    -- the k-th call of motion: one column, reading the draws k*n .. k*n + n - 1
+    let step : Nat → Vec Rat n → Vec Rat n := fun k x => Vec.eval (addSimStep F S stream k x)
+    pure ⟨n, simCtor step x0 L⟩
+  | _ => failure
+
+def simOp (t : String) : Option SimOp :=
+  match t with
+  | "b" => some .buffer
+  | "g" => some .get
+  | "r" => some .reset
+  | "u" => some .other
+  | _ => none
+
+def outSim {n : Nat} (o : SimOut (Vec Rat n)) : List String :=
+  match o with
+  | .flag b => [if b then "T" else "F"]
+  | .data none => ["g", "0"]
+  | .data (some v) => ["g", toString n] ++ outVec ratStr v
+
+def sim : R String := do
+  let ⟨_, s⟩ ← readTraj
+  let nops ← nat
+  let ops ← listOf nops tok
+  done
+  match ops.mapM simOp with
+  | none => failure
+  | some ops =>
+    let (s', outs) := s.run ops
+    pure (join (["ok"] ++ outs.flatMap outSim ++ ["cursor", toString s'.cursor, toString (min s.target.length (bufCount ops))]))
+
+def sensor : R String := do
+  let ⟨n, s⟩ ← readTraj
+  let m ← nat
+  let idx ← listOf m nat
+  let SR ← matCM rat m m
+  let nd ← nat
+  let ds ← listOf nd rat
+  let nops ← nat
+  let ops ← listOf nops tok
+  done
+  if h : idx.length = m then
+    let H0 : Mat Rat idx.length n := linearModelH n idx
+    let H : Mat Rat m n := h ▸ H0
+    let mut st : Sensor Rat n m := { sim := s, meas := none, rng := ⟨streamOf ds.toArray, 0⟩ }
+    let mut out : List String := ["ok"]
+    for op in ops do
+      match op with
+      | "f" =>
+        let (st', ok) := sensorFreeze H SR st
+        st := st'
+        out := out ++ [if ok then "T" else "F"]
+      | "m" =>
+        let (ok, y) := sensorMeasure st
+        out := out ++ (match y with
+          | none => [if ok then "m" else "mF", "0"]
+          | some v => [if ok then "m" else "mF", toString m] ++ outVec ratStr v)
+      | "r" => st := { st with sim := (st.sim.step .reset).1 }; out := out ++ ["T"]
+      | "b" =>
+        let (s', o) := st.sim.step .buffer
+        st := { st with sim := s' }
+        out := out ++ outSim o
+      | _ => out := out ++ ["bad"]
+    pure (join (out ++ ["pos", toString st.rng.pos]))
+  else failure
+
+def sensor_descr : R String := do
+  let lin ← nat; let circ ← nat; let noise ← nat
+  let m ← nat
+  let idx ← listOf m nat
+  let rr ← nat
+  done
+  let st : Descr := ⟨lin, circ, noise⟩
+  let i := sensorInputDescr st rr
+  let md := sensorMeasDescr st idx
+  pure s!"ok {i.lin} {i.circ} {i.noise} {md.lin} {md.circ}"
+
+def grid : R String := do
+  let xinf ← rat; let xsup ← rat; let yinf ← rat; let ysup ← rat
+  let nx ← nat; let ny ← nat; let Rr ← nat; let N ← nat
+  let state ← matCM rat Rr N
+  let weight ← vec rat N
+  done
+  -- decisions and log-weights: the model over Float; positions: the same loop, exact over Rat
+  let (ok, _, wF) := gridInit (α := Float) (ratToFloat xinf) (ratToFloat xsup) (ratToFloat yinf) (ratToFloat ysup)
+      nx ny (matF state) (Vec.of fun i => ratToFloat (weight i))
+  if ok then
+    let st := Mat.eval (gridLoop xinf xsup yinf ysup nx ny state)
+    pure (join (["ok", "T"] ++ outMatCM ratStr st ++ outVec floatStr wF))
+  else
+    pure (join (["ok", "F"] ++ outMatCM ratStr state ++ outVec ratStr weight))
 
 def handle (op : String) (args : List String) : Option String :=
   match op with
+  | "wna_fq" => some ((run wna_fq args).getD "bad-args")
+  | "wna_shape" => some ((run wna_shape args).getD "bad-args")
+  | "samp" => some ((run samp args).getD "bad-args")
+  | "wna_motion" => some ((run wna_motion args).getD "bad-args")
+  | "wna_trans" => some ((run wna_trans args).getD "bad-args")
+  | "lti_state" => some ((run lti_state args).getD "bad-args")
+  | "lti_meas" => some ((run lti_meas args).getD "bad-args")
+  | "linmodel" => some ((run linmodel args).getD "bad-args")
+  | "sim" => some ((run sim args).getD "bad-args")
+  | "sensor" => some ((run sensor args).getD "bad-args")
+  | "sensor_descr" => some ((run sensor_descr args).getD "bad-args")
+  | "grid" => some ((run grid args).getD "bad-args")
   | _ => none
 
 end BFL.DriverModels
